@@ -651,12 +651,12 @@ func (env *Env) index(e *Expr) Value {
 	switch t := types.Unalias(x.T).Underlying().(type) {
 	case *types.Basic:
 		i := env.evalInt(e.Args[1])
-		return Value{T: mathInt, Tm: Select(StrArr(x.Tm), Add(StrOff(x.Tm), i))}
+		return Value{T: mathInt, Tm: Select(StrArr(x.Tm), Ix(StrOff(x.Tm), i))}
 	case *types.Slice:
 		i := env.evalInt(e.Args[1])
 		name, sort := eng.memName(t.Elem())
 		m := env.st.heapGet(name, sort)
-		r := Value{T: t.Elem(), Tm: Select(Select(m, SlRef(x.Tm)), Add(SlOff(x.Tm), i))}
+		r := Value{T: t.Elem(), Tm: Select(Select(m, SlRef(x.Tm)), Ix(SlOff(x.Tm), i))}
 		if isInteger(t.Elem()) {
 			r.T = mathInt
 		}
